@@ -100,7 +100,8 @@ def run(prop, tier, seed, only=None):
     cex = None
     if spec.get('cex'):
         from . import bounded_engine
-        cex = lambda res: bounded_engine.cex_search(spec['cex'], res, seed)
+        known_ = driver.load_known()
+        cex = lambda res: bounded_engine.cex_search(spec['cex'], res, seed, is_known=lambda r: driver.match_known(known_, prop, r) is not None)
     return driver.finish(prop, tier, seed, spec['level'], results, infos, t0, spec['explanation'], TRUSTED + spec.get('trusted_extra', []),
                          spec['assumptions'], '; '.join(cmds), cex_search=cex)
 
@@ -183,8 +184,8 @@ PLAN['C05'] = {
     'level': 'other',
     'technique': 'contract-based deductive verification (Verus) of the dual arithmetic of types/grad.rs on its real text (value lane == point operation, each derivative lane == the textbook rule applied to that lane) and of the VM gradient interpreter dispatch (unit vm); Kani full-domain harnesses on the select operations; bounded native contract runner for numeric agreement with an f64 dual evaluation and for the JIT',
     'level_text': 'Proved (Verus, real text of grad.rs, 28 operations): for abs, sqrt, sin, cos, tan, asin, acos, atan, exp, ln, recip, floor, ceil, round, neg, add, sub, mul, scale, div, atan2, rem_euclid, min, max, and, or, not, From<f32> the value lane is exactly the f32 point operation on the operand values, and each of dx, dy, dz is the differentiation rule of that operation (written from calculus in units/grad.py, the same rule function for the three lanes) applied to that lane\'s seeds in f32, for arbitrary seeds; the operations cannot panic.  No rounding-error bound and no statement about the true real derivative is proved (that is the bounded contract grad_rules against an f64 dual evaluation).  Partial: for min, max, abs, neg the gradient value equals the point value for arbitrary seed lanes, lanes are treated uniformly and the derivative lanes are those of the selected operand (all f32 inputs, Kani). Proved (Verus, unit vm): VmGradSliceEval::eval applies, for every RegOp variant and every sample, the Grad operation of that name to the right operands in the right order (Recip as 1/x, Square as x*x, MulRegImm as scaling), so the chain rule through a tape is exactly the composition of the per-operation rules. Arithmetic/transcendental derivative rules (bounded contract grad_rules: every RegOp variant against the textbook rule on a grid, arbitrary seeds) and the JIT (jit_grad) are bounded stand-ins, not discharged obligations.',
-    'level_note': 'Level other: the property is about real derivatives within a tolerance; what is proved is the exact f32 form of each rule, lane by lane, and the interpreter plumbing. Trusted: Verus+Z3 with ax_float_total (f32 ops are total) and ax_comm (+ and * commute), uninterpreted libm functions, Kani/CBMC. Not covered by proof: rounding error, compare/rand/mix, the symbolic derivative Context::deriv, the JIT gradient evaluator (bounded: jit_grad).',
-    'legs': [leg_kani('leaf'), leg_verus('grad'), leg_verus('vm'), leg_bounded('grad_rules'), leg_bounded('jit_grad')],
+    'level_note': 'Level other: the property is about real derivatives within a tolerance; what is proved is the exact f32 form of each rule, lane by lane, and the interpreter plumbing. Trusted: Verus+Z3 with ax_float_total (f32 ops are total) and ax_comm (+ and * commute), uninterpreted libm functions, Kani/CBMC. Not covered by proof: rounding error, compare/rand/mix, the symbolic derivative Context::deriv (bounded: deriv_rules compares it with the gradient evaluator on op(g, h) with non-trivial inner functions; known finding K6: modulo), the JIT gradient evaluator (bounded: jit_grad).',
+    'legs': [leg_kani('leaf'), leg_verus('grad'), leg_verus('vm'), leg_bounded('grad_rules'), leg_bounded('jit_grad'), leg_bounded('deriv_rules')],
     'explanation': 'Only comparison/select bodies are tractable for CBMC; the rest is stated as not covered.',
     'assumptions': ['no error bound on derivative arithmetic is proved', 'the rule table RULES of units/grad.py is the specification of d/dx for each opcode (written from calculus)', 'Verus gives structs with f32 fields no field range invariant; the proved lemma_fields re-introduces the typing facts (see units/grad.py)'],
 }
